@@ -16,6 +16,11 @@ CONSTANTS
   Modes = {"quorum", "local", "default"}
   Counts = {1, 2}
   Gens = {1, 2}
+  QLogs = {FALSE}
+  StoreLeos = {0}
+  StoreCks = {0}
+  RGens = {1}
+  MaxFut = 1
 VIEW View
 INVARIANTS TypeOK C06_Order
 PROPERTIES C06_HWMonotone C06_QuorumReply C06_ReplyOnce C06_StaleFence C06_StaleMeta C06_AckGuard
